@@ -377,6 +377,20 @@ func genC01(r *Rng, n int, tier string, emit func(Case)) {
 		default:
 			e, ty = t.genBool(d), "bool"
 		}
+		if i%25 == 24 {
+			// a number literal in one of JavaScript's other spellings - alone (printed by the transpiler itself) or as an operand
+			sp := [][2]string{{"1", "1.0"}, {"1.5", "1.50"}, {"0.5", ".5"}, {"5", "5."}, {"1000", "1e3"}, {"16", "0x10"}, {"2.5", "2.50"}, {"100", "100."},
+				{"0.1", "0.10"}, {"10", "1e1"}, {"255", "0xff"}, {"0.25", "25e-2"}, {"12", "12.0"}}[t.r.Intn(13)]
+			lit := eNumSrc(sp[0], sp[1])
+			switch t.r.Intn(3) {
+			case 0:
+				e, ty = lit, "num"
+			case 1:
+				e, ty = eBin("+", lit, t.genInt(1).e), "num"
+			default:
+				e, ty = eCond(t.genBool(1), lit, eNumSrc(sp[0], sp[1])), "num"
+			}
+		}
 		emit(Case{"kind": "render", "oracle": "js-expr", "doc": []interface{}{nBuf(e, true)}, "data": t.data,
 			"ty": ty, "depth": exprDepth(e), "js": fmt.Sprint(printExprStmt(e))})
 	}
